@@ -134,13 +134,13 @@ func (s *TS) List(id int16) ([]TVal, bool) {
 }
 
 // Constructors.
-func VI32(x int64) TVal     { return TVal{Type: TI32, I: x} }
-func VI64(x int64) TVal     { return TVal{Type: TI64, I: x} }
-func VI16(x int64) TVal     { return TVal{Type: TI16, I: x} }
-func VByte(x int64) TVal    { return TVal{Type: TByte, I: x} }
-func VBin(b []byte) TVal    { return TVal{Type: TBinary, B: b} }
-func VStr(s string) TVal    { return TVal{Type: TBinary, B: []byte(s)} }
-func VStruct(s *TS) TVal    { return TVal{Type: TStruct, S: s} }
+func VI32(x int64) TVal           { return TVal{Type: TI32, I: x} }
+func VI64(x int64) TVal           { return TVal{Type: TI64, I: x} }
+func VI16(x int64) TVal           { return TVal{Type: TI16, I: x} }
+func VByte(x int64) TVal          { return TVal{Type: TByte, I: x} }
+func VBin(b []byte) TVal          { return TVal{Type: TBinary, B: b} }
+func VStr(s string) TVal          { return TVal{Type: TBinary, B: []byte(s)} }
+func VStruct(s *TS) TVal          { return TVal{Type: TStruct, S: s} }
 func VList(e byte, l []TVal) TVal { return TVal{Type: TList, Elem: e, L: l} }
 func VBool(b bool) TVal {
 	if b {
